@@ -1,6 +1,8 @@
 """C11 -- FD multi-PG packing preserves every group and honours frame and time limits."""
 from fractions import Fraction
 
+from j1939.message_id import FrameFormat
+
 from ..ref import ids, tp22
 from ..runner import Job
 from ..symx import sym_eq_seq, sym_and, sym_or, sym_not, T, STime
@@ -33,7 +35,8 @@ def h_mpg(ex, calls, ctx='app'):
                 prio = 6
             else:
                 dp, prio = i % 2, (3 + i) % 8
-            if kind == 'pdu2':
+            fbff = kind.startswith('fbff')
+            if kind in ('pdu2', 'fbff'):
                 pf = ex.fresh_int('g%d_pf' % i, 240, 255) if i == 0 else 240 + i
                 ps = ex.fresh_int('g%d_ge' % i, 0, 255) if i == 0 else 0x10 + i
                 if i == 0:
@@ -58,9 +61,17 @@ def h_mpg(ex, calls, ctx='app'):
                 tl = ex.fresh_real('g%d_limit' % i, Fraction(1, 1000), Fraction(2, 10))
             else:
                 tl = Fraction(limit)
-            g = {'i': i, 'L': L, 'cpgn': cpgn, 'dest': dest, 'payload': payload, 'prio': prio, 't': w.now, 'limit': tl, 'kind': kind}
+            g = {'i': i, 'L': L, 'cpgn': cpgn, 'dest': dest, 'payload': payload, 'prio': prio, 't': w.now, 'limit': tl, 'kind': kind, 'fbff': fbff}
+            if fbff:
+                n_before = len(w.log)
+                r = sa.ca.send_pgn(dp, pf, ps, prio, list(payload), time_limit=tl, frame_format=FrameFormat.FBFF)
+                if kind == 'fbff_p2p':
+                    # the base frame format has no destination address: a destination specific group is refused
+                    ex.claim('mpg.fbff.destination_specific_refused', r is False and len(w.log) == n_before, {'group': i, 'returned': r})
+                    continue
+            else:
+                r = sa.ca.send_pgn(dp, pf, ps, prio, list(payload), time_limit=tl)
             groups.append(g)
-            r = sa.ca.send_pgn(dp, pf, ps, prio, list(payload), time_limit=tl)
             ex.claim('mpg.accepted', r is True, {'group': i})
             gap = calls[i][4] if len(calls[i]) > 4 else None
             if gap and ctx == 'app':
@@ -78,20 +89,26 @@ def h_mpg(ex, calls, ctx='app'):
         n = len(f['data'])
         fld = ids.id_fields(f['id'])
         ex.claim('mpg.frame_legal_length', n <= 64 and n in tp22.FD_LENGTHS, {'len': n})
-        ex.claim('mpg.frame_id', sym_and(fld['pf'] == tp22.PF_MPG, fld['sa'] == A, fld['dp'] == 0, f['fd'] is True))
-        dst = int(fld['ps'])
+        base_format = f['ext'] is False
+        if base_format:
+            # FBFF: 11-bit identifier carrying the source address (priority bits not claimed), broadcast by nature
+            ex.claim('mpg.fbff.frame_id', sym_and(f['id'] < 2048, f['id'] % 256 == A, f['fd'] is True), {'id': f['id']})
+            dst = 255
+        else:
+            ex.claim('mpg.frame_id', sym_and(fld['pf'] == tp22.PF_MPG, fld['sa'] == A, fld['dp'] == 0, f['fd'] is True))
+            dst = int(fld['ps'])
         dec, used = tp22.mpg_decode(f['data'])
         # padding: what follows the last group is skipped by a decoder (TOS 0 header or fewer than 5 bytes)
         prios = []
         for (tos, tf, cpgn, pl) in dec:
             hit = None
             for g in groups:
-                if g['i'] in seen or g['dest'] != dst or g['L'] != len(pl):
+                if g['i'] in seen or g['dest'] != dst or g['L'] != len(pl) or g['fbff'] != base_format:
                     continue
                 if bool(sym_and(cpgn == g['cpgn'], sym_eq_seq(pl, g['payload']))):
                     hit = g
                     break
-            ex.claim('mpg.group_in_frame_was_submitted_for_this_destination', hit is not None, {'dst': dst, 'len': len(pl)})
+            ex.claim('mpg.group_in_frame_was_submitted_for_this_destination_and_format', hit is not None, {'dst': dst, 'len': len(pl)})
             if hit is not None:
                 seen[hit['i']] = f
                 prios.append(hit['prio'])
@@ -106,7 +123,7 @@ def h_mpg(ex, calls, ctx='app'):
     # ---- end to end: every group delivered exactly once to the addressed applications
     for name in ('B', 'C'):
         s = st[name]
-        want = [g for g in groups if g['dest'] == 255 or g['dest'] == s.addr]
+        want = [g for g in groups if (g['dest'] == 255 or g['dest'] == s.addr) and not g['fbff']]      # the stack does not receive FBFF
         got = list(s.rx)
         ex.claim('mpg.delivery_count', len(got) == len(want), {'at': name, 'got': len(got), 'want': len(want)})
         rest = list(got)
@@ -138,6 +155,8 @@ def jobs(tier):
     for L in Ls:
         J([[L, 'pdu1', 'B', '0']])
         J([[L, 'pdu2', 'G', 'sym']])
+        J([[L, 'fbff', 'G', '0']])
+        J([[L, 'fbff_p2p', 'B', '0'], [L, 'fbff', 'G', 'sym']])
     for L1 in Ls:
         for L2 in Ls:
             J([[L1, 'pdu1', 'B', 'sym'], [L2, 'pdu1', 'B', 'sym']])
@@ -148,6 +167,10 @@ def jobs(tier):
         J([[L1, 'pdu1', 'B', '1/10'], [L2, 'pdu1', 'B', '0']])
         J([[L1, 'pdu1', 'B', 'sym', '1/50'], [L2, 'pdu1', 'B', 'sym']])
         J([[L1, 'pdu1', 'B', 'sym'], [L2, 'pdu1', 'B', 'sym']], ctx='timer')
+        # base frame format (FBFF): broadcast groups only, never combined with extended-format groups
+        J([[L1, 'fbff', 'G', 'sym'], [L2, 'fbff', 'G', 'sym']])
+        J([[L1, 'fbff', 'G', 'sym'], [L2, 'pdu2', 'G', 'sym']])
+        J([[L1, 'pdu2', 'G', 'sym'], [L2, 'fbff', 'G', '0']])
     tri = [1, 8, 28, 29, 56, 60] if q else BOUND
     for L1 in tri:
         for L2 in tri:
@@ -166,8 +189,8 @@ def meta(tier):
     return {
         'bounds': ['sequences of 1..3 send_pgn calls (thorough: selected sequences up to 12) with lengths from ' + (str(BOUND) if tier == 'quick' else '1..60 (all 60x60 pairs)') + ' ; payload bytes, priority, data page, PDU format / group extension symbolic',
                    'time_limit 0 or a symbolic real in [1 ms, 200 ms]; scheduling latency of every wake-up symbolic 10 us..2 ms; bus latency 1 ms',
-                   'destinations B, C, global; PDU1 and PDU2 groups; submitted from the application and from inside a timer callback; job thread in its idle sleep at submission',
+                   'destinations B, C, global; PDU1 and PDU2 groups; extended (FEFF) and base (FBFF) frame format - FBFF frames judged by the reference decoder only; submitted from the application and from inside a timer callback; job thread in its idle sleep at submission',
                    'every FD frame decoded by the reference multi-PG decoder jv/ref/tp22.py'],
-        'outside': ['FBFF (base format) frames', 'sequences longer than listed', 'tos / trailer formats other than 2 / 0'],
+        'outside': ['priority bits of the FBFF identifier (the stack always sends priority 0)', 'sequences longer than listed', 'tos / trailer formats other than 2 / 0'],
         'assumptions': ['FD reference written without the J1939-22 text at hand: limited to header layout (TOS/TF/CPGN/length), 4-byte header accounting, legal FD lengths'],
     }
